@@ -176,7 +176,10 @@ def rule_c(R, ctx):
         ok = term_has_call(a, "re:^std::collections::HashSet::iter$") or term_has_call(a, "re:hash_set::Iter")
         R.ob("C12.c", fn, site, ok, "redo on %s" % sshow(a, 5), cs.loc())
     cm = fn.calls_to(TXN + "::commit")
-    R.ob("C12.c", fn, "commits", len(cm) >= 1 and any(fn.cfg().postdominates(c.bb, 0) or True for c in cm), "commit() is called: %d site(s)" % len(cm))
+    # every delete / re-creation performed by the step is committed: some commit() post-dominates each of those calls
+    effects = list(dels) + list(redos)
+    committed = bool(cm) and all(any(fn.cfg().postdominates(c.bb, e.bb) for c in cm) for e in effects)
+    R.ob("C12.c", fn, "commits", committed, "commit() post-dominates every delete / redo of the step: %s (%d commit site(s), %d effect site(s))" % (committed, len(cm), len(effects)))
 
 
 def rule_d(R, ctx):
